@@ -318,7 +318,7 @@ def gen_run(seed: int, tier: str, sub: str) -> dict:
     m = meta.get('main')
     shape = 'free'
     if sub != 'captured':
-        shape = {0: 'sweep', 1: 'sweep', 2: 'stampede', 3: 'failure', 4: 'focus', 5: 'focus'}.get(slot, 'free')
+        shape = {0: 'sweep', 1: 'sweep', 2: 'stampede', 3: 'failure', 4: 'focus', 5: 'focus', 6: 'failure'}.get(slot, 'free')
     cfg['shape'] = shape
     cfg['sweep'] = shape == 'sweep'
     cfg['stampede'] = shape == 'stampede'
